@@ -483,6 +483,14 @@ def check_hex_and_numbers(ctx, F, rule="R-TABLE"):
                     got.append(F.canon_of(cb))
         ctx.ob(rule, "numbers|digit-run-beyond-i64-read-as-real|%s" % fn.rsplit("::", 1)[-1], bool(got), "a run of digits that overflows i64 is converted with f32::from_str (%s)" % sorted(set(got)), pb.where(),
                what="%s has no alternative that reads a plain run of digits as a real number: Real values of 2^63 and above are written without a decimal point (Display of f32) and cannot be read back, the enclosing object is dropped on load" % fn)
+    # a text that one number parser cannot convert must be left to the next alternative: the conversion helper reports a
+    # recoverable nom error (Err::Error), not Err::Failure, which would end the whole `alt`
+    cr = F.fn("parser::convert_result") if F.has_fn("parser::convert_result") else None
+    if cr is not None:
+        vs = [st["rv"]["kind"].get("var") for x in F.with_closures(cr) for bi, si, st in x.stmts()
+              if st.get("rv") and st["rv"]["k"] == "agg" and st["rv"]["kind"].get("adt", "").endswith("nom::Err")]
+        ctx.ob(rule, "numbers|conversion-failure-is-recoverable", bool(vs) and all(v == "Error" for v in vs), "convert_result reports nom::Err::%s" % sorted(set(vs)), cr.where(),
+               what="the number parsers report a failed conversion as nom::Err::%s: the alternatives after them (a digit run beyond i64 read as a real) are never tried and the whole object or content stream fails to parse" % sorted(set(v for v in vs if v != "Error")))
     lits = [lib._const_bytes_through(wo, c.args[1]) for c in lib.calls_named(wo, r"io::Write::write_all$")]
     ctx.ob(rule, "keywords", b"null" in lits and b"true" in lits and b"false" in lits, "null/true/false keywords", wo.where(), what="write_object lost a keyword spelling")
 
